@@ -1,7 +1,7 @@
 //! Agent-level twins (C16, C17) on the real agents, the real environment and real / adversarial generators.
 //! Used to turn a Kani refutation into a failing input on the real code, and to re-confirm recorded findings. Never decides.
 use crate::Failure;
-use bourse_book::types::{Order, Side, Status};
+use bourse_book::types::{Event, Order, Side, Status};
 use bourse_de::agents::common::{cancel_live_orders, round_price_down, round_price_up};
 use bourse_de::agents::{Agent, MarketAgent, MomentumAgent, MomentumMarketAgent, MomentumParams, NoiseAgent, NoiseAgentParams, NoiseMarketAgent, RandomAgents};
 use bourse_de::{Env, MarketEnv};
@@ -43,6 +43,21 @@ fn is_bid(s: Side) -> bool { matches!(s, Side::Bid) }
 
 fn fail(clause: &str, detail: String) -> Failure {
     Failure { step: 0, op: None, clause: clause.into(), detail }
+}
+
+/// every cancellation queued by an agent set must name one of its own orders (trader id in `own`) that is Active when the agents looked
+fn check_cancellations(env: &Env, q0: usize, own: &dyn Fn(u32) -> bool, s: usize, out: &mut Vec<Failure>) {
+    for ev in env.verif_transactions()[q0..].iter() {
+        if let Event::Cancellation { order_id } = ev {
+            let o = env.order(*order_id);
+            if o.status != Status::Active {
+                out.push(fail("C16.cancel_only_active", format!("step {}: a cancellation was queued for order {} whose status is {:?} (not active when the agent looked)", s, order_id, o.status)));
+            }
+            if !own(o.trader_id) {
+                out.push(fail("C16.cancel_only_own", format!("step {}: a cancellation was queued for order {} of trader {}", s, order_id, o.trader_id)));
+            }
+        }
+    }
 }
 
 fn quote(env: &mut Env, rng: &mut Xoroshiro128StarStar, bid: u32, ask: u32) {
@@ -101,8 +116,11 @@ fn run_case_inner(c: &AgentCase) -> Vec<Failure> {
             env.step(&mut rng);
             for s in 0..*steps {
                 let n0 = env.get_orders().len();
+                let q0 = env.verif_transactions().len();
                 let mid = env.get_orderbook().mid_price();
                 agents.update(&mut env, &mut rng);
+                let (lo_id, hi_id) = (10u32, 10 + *n as u32);
+                check_cancellations(&env, q0, &|t| t >= lo_id && t < hi_id, s as usize, &mut out);
                 let new: Vec<Order> = env.get_orders()[n0..].iter().map(|o| **o).collect();
                 for o in new.iter() {
                     let market = (is_bid(o.side) && o.price == u32::MAX) || (!is_bid(o.side) && o.price == 0);
@@ -148,8 +166,23 @@ fn run_case_inner(c: &AgentCase) -> Vec<Failure> {
                 quote(&mut env, &mut rng, *b, *a);
                 let mid = env.get_orderbook().mid_price();
                 let n0 = env.get_orders().len();
+                let q0 = env.verif_transactions().len();
                 ag.update(&mut env, &mut rng);
+                let hi_id = 100 + *n as u32;
+                check_cancellations(&env, q0, &|t| t >= 100 && t < hi_id, k, &mut out);
                 let new: Vec<Order> = env.get_orders()[n0..].iter().filter(|o| o.trader_id >= 100).map(|o| **o).collect();
+                for o in new.iter() {
+                    let market = (is_bid(o.side) && o.price == u32::MAX) || (!is_bid(o.side) && o.price == 0);
+                    if o.vol != 10 || o.trader_id >= hi_id {
+                        out.push(fail("C16.configured_volume_and_trader", format!("step {}: order {:?} vol {} trader {}", k, o.order_id, o.vol, o.trader_id)));
+                    }
+                    if !market && is_bid(o.side) && f64::from(o.price) > mid {
+                        out.push(fail("C16.buy_below_mid", format!("step {}: momentum agent buys at {} above the mid-price {} it observed", k, o.price, mid)));
+                    }
+                    if !market && !is_bid(o.side) && f64::from(o.price) < mid {
+                        out.push(fail("C16.sell_above_mid", format!("step {}: momentum agent sells at {} below the mid-price {} it observed", k, o.price, mid)));
+                    }
+                }
                 // documented recursion
                 m = match last { Some(p) => m * (1.0 - decay) + decay * (mid - p), None => 0.0 };
                 last = Some(mid);
@@ -164,6 +197,18 @@ fn run_case_inner(c: &AgentCase) -> Vec<Failure> {
                 }
                 if m == 0.0 && !new.is_empty() {
                     out.push(fail("C17.flat", format!("step {}: M = 0 but {} orders", k, new.len())));
+                }
+                // limit orders: probability order_ratio * |demand * tanh(scale * M)| / n - certain at saturation when the ratio is at least 1, on the side of the signal
+                let limits: Vec<&Order> = new.iter().filter(|o| !((is_bid(o.side) && o.price == u32::MAX) || (!is_bid(o.side) && o.price == 0))).collect();
+                let (lb, ls) = (limits.iter().filter(|o| is_bid(o.side)).count(), limits.iter().filter(|o| !is_bid(o.side)).count());
+                if saturated && *order_ratio >= 1.0 && m > 0.0 && (lb != *n as usize || ls != 0) {
+                    out.push(fail("C17.limit_buys_when_rising", format!("step {}: M = {} > 0, order ratio {} but limit orders (buys, sells) = ({}, {}) from {} traders", k, m, order_ratio, lb, ls, n)));
+                }
+                if saturated && *order_ratio >= 1.0 && m < 0.0 && (ls != *n as usize || lb != 0) {
+                    out.push(fail("C17.limit_sells_when_falling", format!("step {}: M = {} < 0, order ratio {} but limit orders (buys, sells) = ({}, {}) from {} traders", k, m, order_ratio, lb, ls, n)));
+                }
+                if *order_ratio == 0.0 && !limits.is_empty() {
+                    out.push(fail("C16.zero_probability_never", format!("step {}: order ratio 0 but {} limit orders were placed", k, limits.len())));
                 }
                 if !out.is_empty() {
                     return out;
@@ -258,7 +303,10 @@ fn run_case_inner(c: &AgentCase) -> Vec<Failure> {
             let mut ag = RandomAgents::new(*n, (*lo, *hi), (10, 20), *tick, *rate);
             for s in 0..*steps {
                 let n0 = env.get_orders().len();
+                let q0 = env.verif_transactions().len();
                 ag.update(&mut env, &mut rng);
+                let nn = *n as u32;
+                check_cancellations(&env, q0, &|t| t < nn, s as usize, &mut out);
                 for o in env.get_orders()[n0..].iter() {
                     if o.price % tick != 0 || o.price < lo * tick || o.price >= hi * tick {
                         out.push(fail("C16.random_range", format!("step {}: price {} outside the configured tick range [{}, {}) x {}", s, o.price, lo, hi, tick)));
@@ -311,6 +359,8 @@ pub fn search_agents(prop: &str, seed: u64) -> Option<(AgentCase, Vec<Failure>)>
         cases.push(AgentCase::NoiseMarket { tick: 5, bid: 100, ask: 115, sigma: 1.0, n: 5, steps: 40, seed });
         cases.push(AgentCase::Random { tick: 2, lo: 10, hi: 40, n: 8, rate: 0.5, steps: 60, seed });
         cases.push(AgentCase::Random { tick: 1, lo: 5, hi: 6, n: 4, rate: 1.0, steps: 30, seed });
+        cases.push(AgentCase::Random { tick: 1, lo: 5, hi: 7, n: 6, rate: 0.6, steps: 80, seed: seed + 1 });
+        cases.push(AgentCase::Random { tick: 3, lo: 5, hi: 6, n: 5, rate: 0.4, steps: 80, seed: seed + 2 });
     }
     if prop == "C17" || prop == "C16" || prop == "any" {
         for (decay, ratio) in [(1.0f64, 0.0f64), (1.0, 1.0), (0.5, 0.0)] {
@@ -324,6 +374,10 @@ pub fn search_agents(prop: &str, seed: u64) -> Option<(AgentCase, Vec<Failure>)>
         cases.push(AgentCase::MomentumMarket { path: vec![(995, 1005), (996, 1005), (996, 1006), (995, 1006), (990, 1000), (1000, 1010)], n: 2, seed, decay: 1.0 });
         cases.push(AgentCase::MomentumMarket { path: vec![(100, 102), (90, 92), (110, 112), (110, 112)], n: 3, seed, decay: 1.0 });
         cases.push(AgentCase::MomentumMarket { path: vec![(1000, 1002), (1032, 1034), (1028, 1030), (1028, 1030), (1000, 1002)], n: 2, seed, decay: 0.5 });
+        // carried-over signal with limit orders (order ratio 1): the sign of M and the side of the latest move differ at step 3
+        cases.push(AgentCase::Momentum { path: vec![(1000, 1002), (1032, 1034), (1028, 1030), (1028, 1030), (1000, 1002)], n: 2, decay: 0.5, order_ratio: 1.0, seed, demand: 1.0e6 });
+        cases.push(AgentCase::Momentum { path: vec![(1000, 1002), (968, 970), (972, 974), (972, 974), (1000, 1002)], n: 2, decay: 0.5, order_ratio: 1.0, seed, demand: 1.0e6 });
+        cases.push(AgentCase::Momentum { path: vec![(1000, 1002), (968, 970), (972, 974), (990, 992)], n: 3, decay: 0.5, order_ratio: 2.0, seed: seed + 2, demand: 1.0e6 });
         // barely saturated demand: the probability is |demand * tanh(scale * M)| / n with n the NUMBER of traders
         cases.push(AgentCase::Momentum { path: vec![(1000, 1002), (1020, 1022), (1000, 1002), (1030, 1032)], n: 3, decay: 1.0, order_ratio: 0.0, seed, demand: 3.6 });
     }
